@@ -451,6 +451,72 @@ example :
       .raised .typeError [KAtom.int 3] [] := by
   rw [C07_step_is_source, C07_step_is_source]; exact ⟨rfl, rfl⟩
 
+/-! ### The value of a `Set` trait (`TraitSetObject`): which copies still validate -/
+
+/-- **C07_validator_is_source.**  `TraitSetObject.validator` is the
+interpretation of the `_validator` method translated from the working tree, for
+every state of the attributes it reads, every inner trait, ordinal and value. -/
+theorem C07_validator_is_source (σ : TSOSelf) (inner : Bool → Callback α α) :
+    Model.PyLM.V.runValidator Generated.traitSetObjectValidator σ inner = TraitSetObject.validator σ inner := by
+  funext n x; exact Lemmas.PyLMS.tso_validator_is_source σ inner n x
+
+/-- **C07_trait_value_still_validates.**  The rule the code follows: the live
+value of a `Set` trait validates with the inner trait and its owner; a deep copy
+of it and the value whose owner has been garbage-collected validate with the
+inner trait and owner `None`.  Hence (i) for an inner trait that does not
+consult the owner they validate exactly like the live value, and (ii) in every
+case an item the inner trait rejects without an owner is rejected by `add`
+(also after further deep copies), the set being left as it was. -/
+theorem C07_trait_value_still_validates (inner : Bool → Callback α α) :
+    TraitSetObject.validator TSOSelf.live inner = inner true ∧
+    TraitSetObject.validator TSOSelf.live.afterDeepcopy inner = inner false ∧
+    TraitSetObject.validator TSOSelf.live.orphaned inner = inner false ∧
+    TraitSetObject.validator TSOSelf.live.afterDeepcopy.afterDeepcopy inner = inner false ∧
+    ((∀ n x, inner false n x = inner true n x) →
+      TraitSetObject.validator TSOSelf.live.afterDeepcopy inner = TraitSetObject.validator TSOSelf.live inner ∧
+      TraitSetObject.validator TSOSelf.live.orphaned inner = TraitSetObject.validator TSOSelf.live inner) ∧
+    (∀ (s : PSet α) x e, inner false 0 x = .error e →
+      TraitSet.step (TraitSetObject.validator TSOSelf.live.afterDeepcopy inner) s (.add x) = .error e ∧
+      TraitSet.step (TraitSetObject.validator TSOSelf.live.orphaned inner) s (.add x) = .error e) := by
+  have h1 : TraitSetObject.validator TSOSelf.live inner = inner true := by
+    funext n x; simp [TraitSetObject.validator, TSOSelf.live]
+  have h2 : TraitSetObject.validator TSOSelf.live.afterDeepcopy inner = inner false := by
+    funext n x; simp [TraitSetObject.validator, TSOSelf.live, TSOSelf.afterDeepcopy]
+  have h3 : TraitSetObject.validator TSOSelf.live.orphaned inner = inner false := by
+    funext n x; simp [TraitSetObject.validator, TSOSelf.live, TSOSelf.orphaned]
+  have h4 : TraitSetObject.validator TSOSelf.live.afterDeepcopy.afterDeepcopy inner = inner false := by
+    funext n x; simp [TraitSetObject.validator, TSOSelf.live, TSOSelf.afterDeepcopy]
+  refine ⟨h1, h2, h3, h4, ?_, ?_⟩
+  · intro h
+    have : inner false = inner true := by funext n x; exact h n x
+    rw [h1, h2, h3, this]; exact ⟨rfl, rfl⟩
+  · intro s x e he
+    rw [h2, h3]; simp [TraitSet.step, he]
+
+set_option linter.unusedSectionVars false in
+/-- What `__setstate__` leaves behind (a pickle round trip of the trait value;
+also the own attributes of a `copy.copy`, whose `item_validator` however stays
+the bound method of the original): no trait, so nothing is validated — by design
+of `__getstate__`, which drops `trait` and `object` (DESIGN §5 C04/C14). -/
+theorem C07_restored_trait_value_does_not_validate (inner : Bool → Callback α α) :
+    TraitSetObject.validator TSOSelf.afterSetstate inner = fun _ x => .ok x := by
+  funext n x; simp [TraitSetObject.validator, TSOSelf.afterSetstate]
+
+/-- **Negation witness for the seeded change C07-m7.**  A `_validator` that
+skips validation whenever the owner is absent (`trait is None or object is None`
+after dereferencing, the shape of `TraitDictObject._key_validator`) lets a deep
+copy of a `Set(Int)`-like value accept what the inner trait rejects. -/
+theorem C07_trait_value_needs_validation_without_owner :
+    TraitSetObject.validator TSOSelf.live.afterDeepcopy (fun _ _ x => match x with | .int _ => .ok x | .str _ => .error .traitError)
+        0 (KAtom.str 7) = .error .traitError ∧
+    (fun (σ : TSOSelf) (inner : Bool → Callback KAtom KAtom) (n : Nat) (x : KAtom) =>
+        match σ.object, σ.trait with
+        | some true, some false => inner true n x
+        | _, _ => (.ok x : Except Exc KAtom))
+      TSOSelf.live.afterDeepcopy (fun _ _ x => match x with | .int _ => .ok x | .str _ => .error .traitError) 0 (KAtom.str 7)
+        = .ok (KAtom.str 7) := by
+  constructor <;> rfl
+
 /-! ### Tie to the source: the mutators that exist are the mutators modelled -/
 
 /-- Every method of the running interpreter's builtin `set` is either a
